@@ -398,12 +398,14 @@ class Real:
                     cfg = self._cfgs[mixed] = self.Util.normalize_config(dict(id='c17', sources='tcp://localhost', xforms=mixed))
                     if len(self._cfgs) > 20000:
                         self._cfgs.clear()
-                u = self._proc_util
-                if u is None:
-                    u = self._proc_util = object.__new__(self.Util)
-                    u.setup(cfg)
-                u.xforms = cfg.xforms
-                out = u.process({'main': frame, 'other': self.Frame({'meta': 1})})['main']
+                u = object.__new__(self.Util)
+                u.setup(cfg)
+                try:
+                    out = u.process({'main': frame, 'other': self.Frame({'meta': 1})})['main']
+                finally:
+                    ex = getattr(u, 'executor', None)
+                    if ex is not None:
+                        ex.shutdown(wait=False)
                 return ('ok', out.image, out.format)
             xforms = self.parse(text)
             out = self.util.execute_xforms(self.adict(topic='main', frame=frame, xforms=xforms)).frame
